@@ -1,10 +1,13 @@
 #!/bin/bash
-# usage: tools/seedrun.sh <seed-id-dir> <check-id> [tier]   — applies /verif/seeded/<dir>/patch.diff to /repo, runs the check, undoes it
+# usage: tools/seedrun.sh <seed-id-dir> <check-id> [tier]   — applies /verif/seeded/<dir>/patch.diff to /repo, runs the check, undoes it.
+# The evidence file of the check describes runs on the UNCHANGED tree only: it is saved before and restored after.
 set -u
 cd /verif
 d=$1; c=$2; t=${3:-quick}
 git -C /repo diff --quiet || { echo "repo dirty"; exit 2; }
 git -C /repo apply /verif/seeded/$d/patch.diff || { echo "patch does not apply"; exit 2; }
+cp evidence/$c.json /tmp/evidence-$c.bak 2>/dev/null
 ./check $c --tier $t > /tmp/seedrun-$d-$c.log 2>&1; rc=$?
 git -C /repo checkout -- .
+cp /tmp/evidence-$c.bak evidence/$c.json 2>/dev/null
 echo "seed=$d check=$c tier=$t rc=$rc"; grep -E "VIOLATION|obligations" /tmp/seedrun-$d-$c.log | head -5
